@@ -260,11 +260,14 @@ class QuickSampler:
         returns this.
         """
         # Store circuit unitary and input state
+        # Rules of a PostSelection can be modified in place, so store them too
+        rules = getattr(self.post_select, "rules", None)
         return [
             self.__circuit.U_full,
             self.__circuit.heralds,
             self.input_state,
             self.post_select,
+            None if rules is None else [r.as_tuple() for r in rules],
             self.photon_counting,
         ]
 
